@@ -5,11 +5,13 @@ import (
 	"os"
 	"path/filepath"
 	"testing"
+
+	"github.com/bufbuild/bufverif/internal/evid"
 )
 
 // TestReplayFiles re-judges every replay file of C16 that exists (skips when there are none).
 func TestReplayFiles(t *testing.T) {
-	files, _ := filepath.Glob("/verif/replays/C16/*.json")
+	files, _ := filepath.Glob(filepath.Join(evid.Root(), "replays", "C16", "*.json"))
 	if len(files) == 0 {
 		t.Skip("no replay files")
 	}
